@@ -12,6 +12,8 @@ import Pandora.Proofs.C08Run
 import Pandora.Proofs.C08Conc
 import Pandora.Proofs.C08Agree
 import Pandora.Proofs.C08Bound
+import Pandora.Proofs.C08Scan
+import Pandora.Proofs.C08Term
 import Pandora.Bridge.ProvLoops
 import Pandora.Drv.C08
 
@@ -292,6 +294,125 @@ theorem C08_machine_agrees (inp : Input) (n T : Nat) (hn : 0 < n)
   simp only
   rw [h, cycTake_range n T hn]
 
+
+/-! ## round 2: termination, the reading loops of `Scan` line by line, LoadAmmo -/
+
+/-- **global termination measure** — a BOUNDED cell (`m = min⁺(limit, passes·n)`) cannot run for ever, whatever the
+scheduler does: of ANY schedule at most `6·m + cons + 4` labels (loop iterations, sends, receives, end-of-ammo
+observations; `cancel` not counted) find their transition enabled.  No fairness is needed for this. -/
+theorem C08_conc_terminates (inp : Input) (n cons m : Nat) (hn : 0 < n)
+    (hm : Spec.C08.expected inp.b.limit inp.b.passes n = some m) (ls : List Label) :
+    effSteps inp n inp.kind.chanCap cons (Sys.init inp n) ls ≤ 6 * m + cons + 4 := by
+  have hb := atBound_of_expected inp.b n m hn hm
+  have h := effSteps_le_mu inp n inp.kind.chanCap cons m hn hb ls _ (sysInv_init inp n _ hn)
+  have := mu_init_le inp n cons m
+  omega
+
+/-- **every fair execution of a bounded cell ends, completely and cleanly** — an infinite schedule that does not idle
+for ever while something other than a cancel can happen (minimal progress; weaker than weak fairness) reaches a state
+in which every consumer has seen `ok=false` and the acquired ammo are the first entries of the cyclic file in order —
+exactly `min⁺(limit, passes·n)` of them with `Run` = nil when nobody cancelled. -/
+theorem C08_conc_fair_end (inp : Input) (n cons m : Nat) (hn : 0 < n) (hc : 0 < cons)
+    (hm : Spec.C08.expected inp.b.limit inp.b.passes n = some m)
+    (σ : Nat → Label) (hp : Progressing inp n inp.kind.chanCap cons σ) :
+    ∃ t, let s := stateAt inp n inp.kind.chanCap cons σ t
+      (∀ c, c < cons → c ∈ s.ended) ∧ s.acquired = cyc n s.acquired.length ∧
+      (s.cancelled = false → s.result = some .nil ∧ s.acquired.length = m) := by
+  have hb := atBound_of_expected inp.b n m hn hm
+  obtain ⟨t, ht⟩ := progressing_reaches_stuck inp n inp.kind.chanCap cons m hn hb σ hp
+  refine ⟨t, ?_⟩
+  have he : stateAt inp n inp.kind.chanCap cons σ t = reach inp n cons ((List.range t).map σ) :=
+    stateAt_eq_run inp n _ cons σ t
+  simp only
+  rw [he] at ht ⊢
+  obtain ⟨h1, h2, h3⟩ := C08_conc_complete inp n cons hn hc _ ht
+  refine ⟨h1, h2, ?_⟩
+  intro hnc
+  obtain ⟨h4, h5⟩ := h3 hnc
+  rw [hm] at h5
+  exact ⟨h4, by simpa using h5.symm⟩
+
+/-- **after a cancel the providers that read ctx.Err() are done within a bounded number of steps** (http with and
+without preload, scenario — bounded or not): once the context is cancelled, of ANY continuation at most
+`buffered + cons + 6` labels find their transition enabled (emptying the channel, the end-of-ammo observations, the
+last steps of `Run`). -/
+theorem C08_conc_cancel_terminates (inp : Input) (n cons : Nat) (hn : 0 < n) (ht : inp.kind.ctxTop = true)
+    (ls ls' : List Label) :
+    effSteps inp n inp.kind.chanCap cons (reach inp n cons (ls ++ [Label.cancel])) ls' ≤
+      (reach inp n cons ls).buf.length + cons + 6 := by
+  have hi' := sysInv_reach inp n cons hn (ls ++ [Label.cancel])
+  have hc : (reach inp n cons (ls ++ [Label.cancel])).cancelled = true := by
+    unfold reach; rw [run_append, run_cons]; rfl
+  have hb : (reach inp n cons (ls ++ [Label.cancel])).buf = (reach inp n cons ls).buf := by
+    unfold reach; rw [run_append, run_cons]; rfl
+  rw [← hb]
+  generalize reach inp n cons (ls ++ [Label.cancel]) = s at hi' hc ⊢
+  have h := effSteps_le_muC inp n inp.kind.chanCap cons hn ht ls' s hi' hc
+  have htb := tauBudget_le_one n s.ps
+  have hw : waiting cons s ≤ cons := by
+    have := waitingIn_le (List.range cons) s.ended
+    simpa [waiting] using this
+  have hmu : muC n cons s ≤ s.buf.length + cons + 6 := by
+    simp only [muC]
+    by_cases hr : s.result.isSome = true <;> by_cases ho : s.offering.isSome = true <;> simp [hr, ho] <;> omega
+  omega
+
+/-- the bound on sends after a cancel, claimed for EVERY provider kind -/
+def C08_conc_cancel_stops_statement : Prop :=
+  ∀ (inp : Input) (n cons : Nat), 0 < n → ∀ (ls ls' : List Label),
+    (reach inp n cons (ls ++ Label.cancel :: ls')).sent ≤ (reach inp n cons ls).sent + 1
+
+/-- … is false without fairness: grpc/json (like the generic JSON provider) notices a cancel only in its `select`;
+a scheduler under which the send wins every time lets it send `k` more ammo for every `k`.  (`C08_conc_cancel_stops`
+is the part that holds: the providers that read ctx.Err(); `C08_conc_returns`: the Done branch is enabled at every
+such select, and Go picks uniformly among the ready cases.) -/
+theorem C08_conc_cancel_stops_counterexample : ¬ C08_conc_cancel_stops_statement := by
+  intro h
+  have h1 := h grpcUnbounded 1 1 (by omega) [] (grpcRounds 2)
+  rw [grpc_sends_after_cancel 2] at h1
+  simp [reach, Sys.run, Sys.sent, Sys.init] at h1
+
+/-- **the reading loops of `Scan`, line by line** — the decoder of every stream kind (round function REGENERATED from
+uri.go / uripost.go / raw.go / jsonline.go, `Bridge.ProvLoops.roundOf_eq`) over ANY file with `n ≥ 1` entry lines and
+any number of non-entry lines (headers, blank lines) anywhere is the abstract cyclic source of the provider theorems:
+from a state with `q` passes and `r` entries behind it yields entry `r` (entry 0 of the next pass at the end of the
+file while passes are left) and ErrPassLimit exactly when `passes` passes are complete. -/
+theorem C08_scan_lines (style : Style) (passes : Nat) (f : Lines) (hn : 0 < f.count true) :
+    Src (scanFileRes style ⟨0, passes⟩ f) (f.count true) passes (RLines f) ∧ RLines f 0 0 LDec.init :=
+  ⟨src_lines style passes f hn, RLines_init f⟩
+
+/-- … so `Provider.Run` of components/providers/http/provider, with and without preload, over the line-level decoder
+delivers exactly what `C08_run` says: the first `T` entries of the cyclic file, nil (Canceled only when the cancel is
+what stopped it), sink closed. -/
+theorem C08_lines_run (style : Style) (f : Lines) (hn : 0 < f.count true) (preload : Bool) (b : Bounds)
+    (cancelAt : Option Nat) (T : Nat) (hT : target b.limit b.passes (f.count true) cancelAt = some T) :
+    httpRun (fun b d => scanFileRes style b f d) LDec.init (List.range (f.count true)) (fun _ => true) preload b cancelAt
+        (fuelFor T (f.count true) (f.count true)) =
+      some ⟨cyc (f.count true) T, endRes cancelAt T, true⟩ := by
+  have hlen : (List.range (f.count true)).length = f.count true := List.length_range
+  have tg := tgt_of_target _ _ _ _ _ hn hT
+  have h := httpRun_spec (fun b d => scanFileRes style b f d) LDec.init (RLines f) (List.range (f.count true))
+    (fun _ => true) preload b cancelAt T (by rw [hlen]; exact hn) (by rw [filter_const_true, hlen]; exact hn)
+    (by rw [hlen]; exact src_lines style 1 f hn) (by rw [hlen]; exact src_lines style b.passes f hn) (RLines_init f)
+    (by rw [filter_const_true, hlen]; exact tg)
+  rw [filter_const_true, hlen] at h
+  rw [h, cycTake_range _ T hn]
+  rfl
+
+/-- **LoadAmmo** (loop regenerated from decoder.go, `Bridge.ProvLoops.loadAmmo_eq`) over the line-level decoder: with
+a live context it returns every entry once, in order; a cancelled context ends the load of the decoders that read
+ctx.Err() (uri, uripost, raw) at once with the context's error, which `Provider.loadAmmo` hands on AS IT IS
+(`httpLoadFail`, bridged to the regenerated condition) — so core/engine does not count it as a provider failure;
+the json-lines decoder does not look at the context. -/
+theorem C08_load_lines (style : Style) (f : Lines) (hn : 0 < f.count true) :
+    loadLines style false f (f.count true + 1) LDec.init [] = some (.ok (List.range (f.count true))) ∧
+    (∀ fuel d acc, loadLines .eofCheck true f (fuel + 1) d acc = some (.error .canceled)) ∧
+    poolFailsOnProvider (httpLoadFail true .canceled) true = false ∧
+    (∀ b d c, scanFile .topCheck b c f d = scanFile .topCheck b false f d) := by
+  refine ⟨?_, loadLines_cancelled f, by decide, fun b d c => scanFile_top_ctx b f d c⟩
+  have := loadLines_ok style f hn (f.count true + 1) 0 LDec.init (RLines_init f) (by omega)
+  simpa using this
+
 /-! non-vacuity: concrete cells, evaluated by the kernel -/
 example : (run ⟨.jsonArray, false, ⟨0, 1⟩, none⟩ 1).map (·.delivered) = some [0] := by decide
 example : (run ⟨.uri, true, ⟨2, 0⟩, none⟩ 3).map (fun o => (o.delivered, o.run, o.sinkClosed)) = some ([0, 1], .nil, true) := by decide
@@ -316,5 +437,21 @@ example : let s := reach ⟨.httpScenario, false, ⟨0, 0⟩, none⟩ 3 1 [.prod
     (s.result, s.cancelled, s.offering.isSome) = (none, true, true) := by decide
 example : let s := reach ⟨.genericJson, false, ⟨0, 1⟩, none⟩ 2 1 [.prod, .push, .prod, .push]
     (s.result, Spec.C08.expected 0 1 2 == some s.sent) = (none, true) := by decide
+-- round 2: a file with header / blank lines around and between its two entries, read line by line
+example : (scanFile .eofCheck ⟨0, 2⟩ false [false, true, false, false, true, false] ⟨5, 2, 0⟩).1 = .ammo ∧
+    (scanFile .eofCheck ⟨0, 2⟩ false [false, true, false, false, true, false] ⟨5, 2, 0⟩).2.1 = some 0 := by decide
+example : (scanFile .topCheck ⟨0, 1⟩ false [true, false] ⟨1, 1, 0⟩).1 = .errNoAmmo ∨
+    (scanFile .topCheck ⟨0, 1⟩ false [true, false] ⟨1, 1, 0⟩).1 = .unexpected ∨
+    (scanFile .topCheck ⟨0, 1⟩ false [true, false] ⟨1, 1, 0⟩).1 = .errPass := by decide
+example : (match loadLines .eofCheck false [false, true, true, false] 4 LDec.init [] with
+    | some (.ok l) => l == [0, 1] | _ => false) = true := by decide
+-- hypotheses of C08_conc_terminates / _fair_end: a bounded cell; a schedule that keeps making progress
+example : Spec.C08.expected 3 0 2 = some 3 ∧ (6 * 3 + 2 + 4 = 24) := by decide
+example : effSteps ⟨.uri, true, ⟨3, 0⟩, none⟩ 2 0 2 (Sys.init ⟨.uri, true, ⟨3, 0⟩, none⟩ 2)
+    [.prod, .prod, .hand 1, .push, .prod, .hand 0, .prod, .hand 1, .prod, .eoa 0, .eoa 1, .eoa 1] = 10 := by decide
+-- … and of C08_conc_cancel_terminates: a ctx-checking kind cancelled while its buffer holds ammo
+example : (reach ⟨.httpScenario, false, ⟨0, 0⟩, none⟩ 3 1 ([.prod, .push, .prod, .push] ++ [.cancel])).buf.length = 2 ∧
+    (reach ⟨.httpScenario, false, ⟨0, 0⟩, none⟩ 3 1 ([.prod, .push, .prod, .push] ++ [.cancel])).cancelled = true ∧
+    Kind.ctxTop .httpScenario = true := by decide
 
 end Pandora.Props.C08
